@@ -1898,7 +1898,7 @@ impl Sim for C18 {
   }
   fn runs(&self, tier: Tier) -> u64 {
     match tier {
-      Tier::Quick => 150_000,
+      Tier::Quick => 80_000,
       Tier::Thorough => 3_000_000,
     }
   }
@@ -1956,13 +1956,13 @@ impl Sim for C18 {
             json!({"kind": "eval", "m": target(&mut rng, &guess)})
           } else if deployed && use_tod && roll < 55 {
             json!({"kind": "tod", "m": target(&mut rng, &guess)})
-          } else if use_mal && roll < 65 {
+          } else if use_mal && (50..65).contains(&roll) {
             json!({"kind": "mal", "what": rng.pick(&MALFORMED), "m": target(&mut rng, &guess), "n": rng.below(64)})
-          } else if !guess.is_empty() && !deployed && roll < 80 {
+          } else if !guess.is_empty() && !deployed && roll < 62 {
             json!({"kind": "deploy"})
-          } else if roll < 83 {
+          } else if (80..82).contains(&roll) {
             json!({"kind": "info"})
-          } else if faults && use_tod && roll < 86 {
+          } else if faults && use_tod && (82..86).contains(&roll) {
             let d = rng.pick(&CLOCK_DATES);
             json!({"kind": "clock", "days": simrt::days_from_civil(d.0, d.1, d.2), "tick": if rng.chance(1, 5) { 1 } else { 0 }})
           } else {
